@@ -7,6 +7,7 @@ CONSTANTS ParseLen,      \* Parse vectors: all strings over Core up to this leng
           SubLen,        \* ... and all strings over SubSyms up to this length
 
           IPLen,         \* IP-literal family: all strings over IPAlpha up to this length that hold an address text
+          ACELen,        \* A-label family: all strings over ACEAlpha up to this length that hold a label with the ACE prefix
           PartLen        \* New vectors: all triples of parts up to this length over TripleSyms
 
 LongParts == {<<L1022>>, <<L1023>>, <<L1024>>, <<L1022, a>>, <<a, L1022>>, <<L1022, a, a>>, <<L1022, EA>>,
@@ -26,6 +27,38 @@ IPStrs == IPShaped \cup {s \in StrsOf(IPAlpha, IPLen) : Has(s, {V6B})}
 IPParse == IPStrs \cup {<<a, AT>> \o s : s \in IPShaped} \cup {<<a, AT>> \o s \o <<SL, a>> : s \in IPShaped}
 IPTriples == {<< <<>>, s, <<>> >> : s \in IPStrs} \cup {<< <<a>>, s, <<a>> >> : s \in IPStrs}
 
+(* A-label family: a label with the ACE prefix - the A-label of U+00FC in every case variant of the prefix / of the *)
+(* Punycode digits, and labels that carry the prefix without being the A-label of a U-label (undecodable Punycode, *)
+(* Punycode of a character IDNA maps further, Punycode of an ASCII label, the bare prefix) - alone, as first /      *)
+(* middle / last label of a name, next to ASCII labels, U-labels, other such labels and to one or two final label   *)
+(* separators; in every part of an address.  However the label is recognised, what is returned must be canonical   *)
+(* (C11_Idempotent: parsing its string form yields an equal address) and all constructors must agree.              *)
+ACEAlpha == {a, UA, DOT, UU} \cup ACESyms
+ACELabels == {<<a>>, <<UA>>, <<UU>>} \cup {<<x>> : x \in ACESyms}
+ACETails == {<<>>, <<DOT>>, <<DOT, DOT>>, <<IDS>>}
+ACEOne == {<<x>> : x \in ACESyms}
+ACETwo == {x \o <<DOT>> \o y : x \in ACELabels, y \in ACELabels}
+ACELabels3 == {<<a>>, <<UU>>, <<XN>>, <<XNU>>, <<XNM>>, <<XNT>>, <<XNBAD>>, <<XNE>>}
+ACEThree == {x \o <<DOT>> \o y \o <<DOT>> \o z : x \in ACELabels3, y \in ACELabels3, z \in ACELabels3}
+ACEShort == {n \o t : n \in {m \in ACEOne \cup ACETwo : Has(m, ACESyms)}, t \in ACETails}
+ACEShaped == {n \o t : n \in {m \in ACEOne \cup ACETwo \cup ACEThree : Has(m, ACESyms)}, t \in ACETails}
+ACEStrs == ACEShaped \cup {s \in StrsOf(ACEAlpha, ACELen) : Has(s, ACESyms)}
+ACEParse == ACEStrs \cup {<<UA, AT>> \o s \o <<SL, UA>> : s \in ACEShaped} \cup {<<XNU, AT>> \o s \o <<SL, XNM>> : s \in ACEShort}
+ACETriples == {<< <<>>, s, <<>> >> : s \in ACEStrs} \cup {<< <<UA>>, s, <<UA>> >> : s \in ACEShaped}
+              \cup {<< <<x>>, <<y>>, <<z>> >> : x \in ACESyms, y \in ACESyms, z \in ACESyms}
+(* prefixes and Punycode tails of the law-only corpus (code points; the driver composes labels prefix + tail):      *)
+(* tails that decode to a U-label, to a character IDNA maps further or disallows, to right-to-left letters, to a    *)
+(* joiner, to ASCII; undecodable ones; with hyphens next to the prefix and at the end                               *)
+AcePre == << <<120, 110, 45, 45>>, <<88, 78, 45, 45>>, <<88, 110, 45, 45>>, <<120, 78, 45, 45>>,
+             <<65368, 110, 45, 45>>, <<120, 65326, 45, 45>>, <<120, 110, 45>>, <<120, 110, 8208, 45>> >>
+AceTail == << <<116, 100, 97>>, <<84, 68, 65>>, <<84, 100, 97>>, <<98, 99, 104, 101, 114, 45, 107, 118, 97>>,
+              <<66, 67, 72, 69, 82, 45, 75, 86, 65>>, <<122, 99, 97>>, <<57, 99, 97>>, <<51, 120, 97>>, <<99, 102, 97>>,
+              <<55, 98, 97>>, <<106, 109, 54, 99>>, <<107, 106, 97>>, <<101, 45, 120, 98, 98>>, <<112, 104, 55, 99>>, <<98, 102, 97>>,
+              <<97, 45, 117, 103, 110>>, <<109, 103, 98>>, <<52, 100, 98>>, <<110, 51, 104>>, <<49, 99, 104>>,
+              <<97, 45, 101, 104, 97>>, <<97, 45, 100, 104, 97>>, <<45, 97, 45, 119, 107, 97>>, <<97, 45, 45, 121, 107, 97>>,
+              <<97>>, <<>>, <<97, 45>>, <<115, 115, 45>>, <<45>>, <<48>>, <<116, 100, 97, 97>>, <<116, 100, 97, 45>>,
+              <<120, 110, 45, 45, 116, 100, 97, 45>>, <<252>>, <<97, 45, 98>> >>
+
 PVec(s) == LET sp == Split(s) c == ClsParse(s) IN
   [k |-> "parse", s |-> s, err |-> sp.err, l |-> sp.l, d |-> sp.d, r |-> sp.r, cls |-> c,
    canon |-> IF c = "ok" THEN CanonParse(s) ELSE <<>>]
@@ -37,12 +70,12 @@ NVec(l, d, r) == LET c == ClsNew(l, d, r) IN
   [k |-> "new", l |-> l, d |-> d, r |-> r, cls |-> c, canon |-> IF c = "ok" THEN CanonNew(l, d, r) ELSE <<>>]
 Triples == (SmallParts \X SmallParts \X SmallParts) \cup (OneParts \X OneParts \X OneParts)
            \cup {<<p, <<a>>, <<>> >> : p \in LongParts} \cup {<< <<>>, p, <<>> >> : p \in LongParts}
-           \cup {<< <<>>, <<a>>, p>> : p \in LongParts} \cup IPTriples
+           \cup {<< <<>>, <<a>>, p>> : p \in LongParts} \cup IPTriples \cup ACETriples
 
 (* replacements: valid bases (raw parts), each role, every part up to length 2 over Core *)
 Bases == {<< <<a>>, <<a>>, <<a>> >>, << <<>>, <<a>>, <<>> >>, << <<UA>>, <<a, DOT, UA>>, <<>> >>,
           << <<>>, <<XN>>, <<UA, SP>> >>, << <<FW, CS>>, <<V6>>, <<FW, SL, AT>> >>, << <<LB>>, <<V4>>, <<CS>> >>}
-ReplParts == StrsOf(Core, 2) \cup LongParts \cup IPStrs
+ReplParts == StrsOf(Core, 2) \cup LongParts \cup IPStrs \cup ACEShort
 WVec(b, role, p) ==
   LET l == IF role = "l" THEN p ELSE NormL(b[1])
       d == IF role = "d" THEN p ELSE NormDStrict(b[2])
@@ -64,11 +97,11 @@ Pool == <<97, 65, 122, 48, 45, 46, 95, 126, 33, 39, 34, 38, 47, 58, 60, 62, 64, 
           4348, 43868, 119137, 2364, 2325, 3953, 3954, 12441, 12363, 776, 97, 46>>
 
 SubSyms == {a, UA, AT, SL, DOT, IDS, FW, CS, XN, SP}
-ParseSet == StrsOf(Core, ParseLen) \cup StrsOf(SubSyms, SubLen) \cup LongStrs \cup IPParse
+ParseSet == StrsOf(Core, ParseLen) \cup StrsOf(SubSyms, SubLen) \cup LongStrs \cup IPParse \cup ACEParse
 ASSUME ndJsonSerialize("parse.ndjson", SetToSeq({PVec(s) : s \in ParseSet}))
 ASSUME ndJsonSerialize("new.ndjson", SetToSeq({NVec(t[1], t[2], t[3]) : t \in Triples}))
 ASSUME ndJsonSerialize("with.ndjson", SetToSeq({WVec(b, role, p) : b \in Bases, role \in {"l", "d", "r"}, p \in ReplParts}))
 ASSUME ndJsonSerialize("eq.ndjson", SetToSeq({EVec(s1, s2) : s1 \in EqStrs, s2 \in EqStrs}))
-ASSUME JsonSerialize("plan.json", [text |-> [s \in 1..24 |-> Text[s]], pool |-> Pool])
-ASSUME PrintT(<<"EMITTED", Cardinality(ParseSet), Cardinality(Triples), Cardinality(EqStrs)>>)
+ASSUME JsonSerialize("plan.json", [text |-> [s \in 1..NSyms |-> Text[s]], pool |-> Pool, acepre |-> AcePre, acetail |-> AceTail])
+ASSUME PrintT(<<"EMITTED", Cardinality(ParseSet), Cardinality(Triples), Cardinality(EqStrs), Cardinality(ACEParse), Cardinality(ACETriples)>>)
 =============================================================================
